@@ -755,6 +755,7 @@ func (ex *Ex) step(fr *Frame, st *State, ins ssa.Instruction) {
 		st.regs[x] = ex.val(fr, st, x.X)
 	case *ssa.ChangeType:
 		st.regs[x] = ex.val(fr, st, x.X)
+		ex.redactableConversionSink(fr, st, x)
 	case *ssa.Convert:
 		st.regs[x] = ex.convert(fr, st, x)
 	case *ssa.TypeAssert:
